@@ -93,10 +93,23 @@ Definition anc (U : univ) (r : revid) : list revid := ancestors (ug U) [r].
 Definition missing_full (U : univ) (vis : list revid) (r : revid) : list revid :=
   filter (fun a => srcp U a && negb (memb a vis)) (anc U r).
 
+(* find_ghosts=False, _walk_to_common_revisions after /repo be5f5d4: breadth first from r in the
+   source; after each batch the search stops at the seen ancestors of the revisions the target has
+   EXCEPT those the walk itself found missing in the target -- i.e. it stops only at revisions the
+   target has.  Every seen revision is checked against the target, and within one batch
+   (_walk_to_common_revisions_batch_size = 50) the searcher keeps walking past revisions the target
+   has, so a search that is exhausted in its first batch requests every ancestor the target lacks:
+   the same set as find_ghosts=True.  With several batches the result lies between "reachable from r
+   without passing through a revision the target has" and that set (Theory: walk_ok); on a target
+   closed under parents all of them coincide. *)
+Definition missing_walk (U : univ) (vis : list revid) (r : revid) : list revid :=
+  filter (fun a => srcp U a && negb (memb a vis)) (anc U r).
+
+(* the search BEFORE be5f5d4 (kept for the regression statement C03_old_walk_unclosed_refuted): the
+   revisions the target has and ALL their seen ancestors were excluded, also ancestors the target lacks *)
 Definition haves (U : univ) (vis : list revid) (r : revid) : list revid :=
   filter (fun a => srcp U a && memb a vis) (anc U r).
-
-Definition missing_walk (U : univ) (vis : list revid) (r : revid) : list revid :=
+Definition missing_walk_old (U : univ) (vis : list revid) (r : revid) : list revid :=
   let stop := ancestors (ug U) (haves U vis r) in
   filter (fun a => srcp U a && negb (memb a stop)) (anc U r).
 
